@@ -26,7 +26,8 @@ VARIABLES las,        \* "init" | "serving" | "returned"
           accErr,     \* first error returned by a goroutine of the group ("" = none)
           cons,       \* "select" | "exit"
           sess,       \* connection -> "none" | "hs" | "est" | "listen" | "finish" | "done"
-          outcome,    \* connection -> "est" | "failed" | "err"   (how its handshake ends)
+          outcome,    \* connection -> "est" | "failed" | "err" | "stall"   (how its handshake ends;
+                      \*   a stalled client never answers: only the cancelled serve context ends it)
           closer,     \* "idle" | "c1" | "c2" | "done"
           closeAt,    \* Close starts after this many steps at the earliest
           panicked, hist, obs
@@ -105,6 +106,7 @@ ConsSelect(arm) ==
 (* context makes it fail with an error)                                      *)
 SessHandshake(c) ==
   /\ Alive /\ sess[c] = "hs"
+  /\ (outcome[c] = "stall" => ctxDone)
   /\ LET o == IF ctxDone THEN "err" ELSE outcome[c] IN
      /\ sess' = [sess EXCEPT ![c] = IF o = "est" THEN "est" ELSE "done"]
      /\ Note([Ev("hs") EXCEPT !.s = c, !.res = o])
@@ -172,7 +174,7 @@ Init == /\ las = "init" /\ ctxDone = FALSE /\ lisOpen = [l \in Lis |-> TRUE] /\ 
         /\ queue = <<>> /\ backlog = [l \in Lis |-> <<>>]
         /\ acc = [l \in Lis |-> [pc |-> "accept", holds |-> ""]] /\ accErr = ""
         /\ cons = "select" /\ sess = [c \in Conns |-> "none"]
-        /\ outcome \in [Conns -> {"est", "failed", "err"}]
+        /\ outcome \in [Conns -> {"est", "failed", "err", "stall"}]
         /\ closer = "idle" /\ closeAt \in CloseAfter /\ panicked = FALSE /\ hist = <<>> /\ obs = <<>>
 
 Next == /\ ~HasEnd(obs)
